@@ -164,7 +164,7 @@ def seed_target(ws_target, kind):
     return False
 
 
-BUCKETS = [4, 6, 8, 12, 16, 24, 36, 48, 64, 96, 128]
+BUCKETS = [6, 12, 36, 64, 128]
 
 
 def bucket(b):
@@ -180,34 +180,58 @@ def unwind_signature(i):
     return tuple(sorted((f, rx, bucket(b)) for (f, rx, b) in i.unwindset))
 
 
-def discover_unwindset(ws, scratch, pkg, insts):
+_LOOPS_CACHE = {}
+
+
+def list_loops(ws, scratch, pkg, feats, all_insts):
+    """Loop ids of the goto binaries of every harness of this package (one codegen run)."""
+    key = (pkg, feats)
+    if key in _LOOPS_CACHE:
+        return _LOOPS_CACHE[key]
+    tdir = os.path.join(scratch, "kt")
+    seed_target(tdir, "kani-target")
+    if INJ is not None:
+        INJ.set_kani()
+    cmd = ["cargo", "kani", "-p", pkg, "--target-dir", tdir, "--only-codegen", "--exact"]
+    for i in all_insts:
+        cmd += ["--harness", i.full_name()]
+    if feats:
+        cmd += ["--features", ",".join(feats)]
+    if any("kani::stub" in a for i in all_insts for a in i.attrs):
+        cmd += ["-Z", "stubbing"]
+    logf = os.path.join(scratch, "kani-codegen-%s.log" % pkg)
+    rc, to = run_cmd(cmd, ws, logf, timeout=1800)
+    loops = []
+    if rc == 0:
+        import glob
+        seen = set()
+        for i in all_insts:
+            cands = glob.glob(os.path.join(tdir, "kani", "*", "debug", "build", pkg, "*", "out", "*%d%s.out" % (len(i.name), i.name)))
+            cands = [c for c in cands if not c.endswith(".symtab.out")]
+            if not cands:
+                continue
+            cands.sort(key=os.path.getmtime)
+            out = subprocess.run(["cbmc", "--show-loops", cands[-1]], capture_output=True, text=True).stdout
+            for t in re.findall(r"^Loop (\S+):\n\s+file (\S+) line (\d+)", out, re.M):
+                if t not in seen:
+                    seen.add(t)
+                    loops.append(t)
+    _LOOPS_CACHE[key] = loops
+    return loops
+
+
+def discover_unwindset(ws, scratch, pkg, insts, feats=(), all_insts=None):
     """Per-loop unwind bounds for loops of the REAL code whose trip count is
     bounded by an instance parameter (e.g. `for j in 0..self.buff.len()`,
-    len <= w-m+1).  Loop ids are read from the goto binary (`cbmc --show-loops`)
+    len <= w-m+1).  Loop ids are read from the goto binaries (`cbmc --show-loops`)
     and matched by source text; unwinding assertions stay on, so a bound that is
     too small for the current code is reported, never silently truncating."""
     need = [i for i in insts if i.unwindset]
     if not need:
         return "", []
-    tdir = os.path.join(scratch, "kt")
-    seed_target(tdir, "kani-target")
-    first = need[0]
-    cmd = ["cargo", "kani", "-p", pkg, "--target-dir", tdir, "--only-codegen", "--exact", "--harness", first.full_name()]
-    feats = sorted({f for i in insts for f in i.features})
-    if feats:
-        cmd += ["--features", ",".join(feats)]
-    logf = os.path.join(scratch, "kani-codegen-%s.log" % pkg)
-    rc, to = run_cmd(cmd, ws, logf, timeout=1800)
-    if rc != 0:
-        return "", ["codegen for loop discovery failed"]
-    import glob
-    cands = glob.glob(os.path.join(tdir, "kani", "*", "debug", "build", pkg, "*", "out", "*%d%s.out" % (len(first.name), first.name)))
-    cands = [c for c in cands if not c.endswith(".symtab.out")]
-    if not cands:
-        return "", ["goto binary of %s not found" % first.name]
-    cands.sort(key=os.path.getmtime)
-    out = subprocess.run(["cbmc", "--show-loops", cands[-1]], capture_output=True, text=True).stdout
-    loops = re.findall(r"^Loop (\S+):\n\s+file (\S+) line (\d+)", out, re.M)
+    loops = list_loops(ws, scratch, pkg, tuple(feats), [i for i in (all_insts or insts) if i.unwindset])
+    if not loops:
+        return "", ["loop discovery failed (codegen error or no loops): global unwind bound only"]
     bounds = {}
     for i in need:
         for (fsuf, rx, b) in i.unwindset:
@@ -433,21 +457,29 @@ def body(args, pid, P, seed, scratch, t_start):
     wd.start()
     results = {}
     compile_errors = []
-    groups = []
-    for i in insts:
-        key = (i.pkg, tuple(sorted(i.features)), unwind_signature(i), any("kani::stub" in a for a in i.attrs))
-        if key not in groups:
-            groups.append(key)
+    # group = one cargo-kani invocation: same package, features, stub use, and per-loop bounds that do
+    # not contradict each other (an unwindset entry for a loop a harness does not contain is ignored)
+    groups = []  # [pkg, feats, {pattern: bucket}, stubbed, [instances]]
+    for i in sorted(insts, key=lambda i: -len(i.unwindset)):
+        sig = {(f, rx): b for (f, rx, b) in unwind_signature(i)}
+        stubbed = any("kani::stub" in a for a in i.attrs)
+        feats = tuple(sorted(i.features))
+        for g in groups:
+            if g[0] == i.pkg and g[1] == feats and g[3] == stubbed and all(g[2].get(k, v) == v for k, v in sig.items()):
+                g[2].update(sig)
+                g[4].append(i)
+                break
+        else:
+            groups.append([i.pkg, feats, dict(sig), stubbed, [i]])
     kani_wall = 0.0
     unwind_notes = []
     unwindsets = {}
-    for gi, (pkg, feats, usig, stubbed) in enumerate(groups):
-        pin = [i for i in insts if i.pkg == pkg and tuple(sorted(i.features)) == feats and unwind_signature(i) == usig
-               and any("kani::stub" in a for a in i.attrs) == stubbed]
+    for gi, (pkg, feats, usig, stubbed, pin) in enumerate(groups):
         tag = "%s-g%d" % (pkg, gi) + ("-" + "-".join(f.replace("/", "_") for f in feats) if feats else "")
         # longest first so that the tail of the schedule is short
         pin.sort(key=lambda i: -i.cost)
-        uws, unotes = discover_unwindset(ws, scratch, pkg, pin)
+        same_build = [i for i in insts if i.pkg == pkg and tuple(sorted(i.features)) == feats]
+        uws, unotes = discover_unwindset(ws, scratch, pkg, pin, feats, same_build)
         unwind_notes.extend(unotes)
         unwindsets[pkg] = uws
         for i in pin:
@@ -580,7 +612,7 @@ def handle_failures(args, pid, P, ws, scratch, failed, results, fp, unwindsets):
         rc, to, logf, tdir, dt = run_kani(ws, scratch, inst.pkg, [inst], "pb-" + inst.name, playback=True,
                                              unwindset=getattr(inst, "uws", "") if getattr(inst, "used_unwindset", True) else "")
         txt = open(logf, errors="replace").read()
-        pbs = kani_parse.parse_playback(txt)
+        pbs = [pb for pb in kani_parse.parse_playback(txt) if not pb["check_desc"].startswith(("req:", "opt:"))]
         if not pbs:
             unreproduced.append("%s: failed checks %s but no concrete playback could be obtained" % (inst.name, descs[:3]))
             continue
